@@ -27,7 +27,7 @@ EXPLANATION = ("Lean theorems (all programs of the modelled fragment, unbounded 
                "namespaces, lambdas, templates, typedef names, structured bindings, function/overload linking "
                "(SymbolDatabase, Scope::findFunction), declaration-recognition heuristics beyond the printed forms.")
 THEOREMS = ["Cppcheck.VarMap.varmap_refines_partial", "Cppcheck.VarMap.varmap_refines", "Cppcheck.VarMap.varmap_enum_counterexample",
-            "Cppcheck.VarMap.run_eq_srun", "Cppcheck.VarMap.run_eq_srun_of_noGuse", "Cppcheck.VarMap.run_guse_undeclared_counterexample",
+            "Cppcheck.VarMap.run_eq_srun_partial", "Cppcheck.VarMap.run_eq_srun_of_noGuse_partial", "Cppcheck.VarMap.run_guse_undeclared_counterexample",
             "Cppcheck.VarMap.resolve_eq_spec_partial", "Cppcheck.VarMap.resolve_enum_counterexample",
             "Cppcheck.VarMap.ids_distinct", "Cppcheck.VarMap.declIds_range",
             "Cppcheck.VarMap.varmap_oldorder_counterexample", "Cppcheck.VarMap.resolveOld_counterexample"]
@@ -734,6 +734,7 @@ def compare(ctx, res, name, cases, impl, model, register=True):
     """correspondence: ids after setVarId (stage A) vs M (model of the code); later passes only clear ids (stage B vs A);
     P_impl: final ids (stage B) vs S (lexical scoping).  Returns (violations, mismatch indices)"""
     mism, viol, stage = [], [], []
+    n_bound = n_unlinked = 0
     for k, (c, im, mo) in enumerate(zip(cases, impl, model)):
         text, occ = print_prog(c["prog"], c["cpp"])
         A = im[1] if im[0] == "ok" else None
@@ -767,6 +768,8 @@ def compare(ctx, res, name, cases, impl, model, register=True):
             if bad or dup_ids:
                 viol.append(dict(case=c, text=text, impl=B, spec=mo["S"], model=mo["M"], old=mo["O"], bad=bad, dup_ids=dup_ids,
                                  key=classify(c, A, mo, occ, bad, dup_ids)))
+            n_bound += sum(1 for b in mo["S"] if b)
+            n_unlinked += len(unl)
             if unl and register:
                 res.count("unlinked-use")
         elif A is None and register:
@@ -782,6 +785,11 @@ def compare(ctx, res, name, cases, impl, model, register=True):
             cls[kk] = cls.get(kk, 0) + 1
         detail = "%d of %d programs differ, classes %s; first: %s\n%s\nimpl=%s\nmodel=%s" % (len(mism), len(cases), cls, describe(cases[k]), inline(cases[k].get("text", "")), impl[k][:2], model[k]["M"])
     res.oblig("correspondence:" + name, not mism, "correspondence", detail)
+    if register and name != "replay":
+        # the property only speaks about links cppcheck makes; a change that stops linking would pass P_impl silently
+        res.extra["unlinked_tokens"] = "%d of %d tokens lexical scoping binds to a variable" % (n_unlinked, n_bound)
+        res.oblig("P_impl:unlinked-ceiling", n_unlinked * 50 <= n_bound, "correspondence",
+                  "" if n_unlinked * 50 <= n_bound else "%d of %d name tokens that lexical scoping binds to a variable carry varid 0 (ceiling 2 %%)" % (n_unlinked, n_bound))
     res.oblig("correspondence:%s:later-passes-only-clear-ids" % name, not stage, "correspondence",
               "" if not stage else "%d programs: a pass after setVarId changed a non-zero id; first: %s\n%s" % (len(stage), describe(cases[stage[0]]), impl[stage[0]]))
     return viol, mism
@@ -1145,6 +1153,625 @@ def clang_oracle(ctx, res, cases, model, limit, batch=40):
     return bad
 
 
+# ---- link probes: calls / members / namespaces / lambdas (outside the Lean model; sampled, g++ as oracle) -----------------
+# Every declaration (variable, member, parameter, function overload) gets a unique size tag k: variables have type R<k>,
+# overloads return R<k>, sizeof(R<k>) = k.  For every use / call the g++ text contains `Probe<sizeof(expr)> q<i>;` with the
+# incomplete template `Probe`: the error message `aggregate 'Probe<k> q<i>' has incomplete type` tells which declaration the
+# COMPILER selected (name lookup + overload resolution), without our own implementation of either.  The real SymbolDatabase
+# (harness op `link`) tells which declaration the token is linked to (Token::variable / Token::function).
+
+PTYPES = ["int", "long", "double", "char", "const char *", "bool", "unsigned", "float"]
+ARGVARS = [("a0", "int", "1"), ("a1", "long", "1"), ("a2", "double", "1"), ("a3", "char", "'c'"), ("a4", "const char *", '"s"'),
+           ("a5", "bool", "true"), ("a6", "unsigned", "1"), ("a7", "float", "1"), ("a8", "short", "1")]
+LITERALS = ["1", "1L", "1.5", "'c'", '"s"', "true", "1u", "1.5f", "0"]
+LIT_TYPES = {"1": "int", "1L": "long", "1.5": "double", "'c'": "char", '"s"': "const char *", "true": "bool", "1u": "unsigned", "1.5f": "float",
+             "0": "zero"}
+
+
+class LinkGen:
+    def __init__(self, rng, size=1.0, order=False):
+        self.rng = rng
+        self.order = order      # True: a free function's body may call an overload set that is still being declared
+        self.size = size
+        self.toks = []          # ("t", text) | ("d", name, k) | ("u", name, occ) | ("p", expr, occ)
+        self.k = 0
+        self.nocc = 0
+        self.nfun = 0
+        self.nns = 0
+        self.nst = 0
+        self.nlam = 0
+        self.structs = []       # complete structs: (name, {"vars": [names], "svars": [names], "funcs": {name: [ptypes]}})
+        self.nspaces = []       # (qualified path, {"vars": [...], "funcs": {...}})
+        self.gvars = []
+        self.gfuncs = {}
+        self.kinds = {}         # occ -> kind string (for the distribution / classification)
+        self.dinfo = {}         # k -> (kind, scope) of the declaration
+        self.oinfo = {}         # occ -> metadata for the classification of disagreements
+        self.cur_ctx = None
+        self.last_argtypes = []
+
+    def t(self, s):
+        self.toks.append(("t", s))
+
+    def newk(self):
+        self.k += 1
+        return self.k
+
+    def decl_var(self, name, static=False, ind="", kind="local", scope=""):
+        k = self.newk()
+        self.dinfo[k] = (kind, scope)
+        self.t("%s%sR%d" % (ind, "static " if static else "", k))
+        self.toks.append(("d", name, k))
+        self.t(";\n")
+
+    def use(self, name, expr, kind):
+        """one tracked use occurrence `name` inside the inline expression `expr` (name appears exactly once, at the end of
+        its qualification); returns the tokens"""
+        occ = self.nocc
+        self.nocc += 1
+        self.kinds[occ] = kind
+        return occ
+
+    # -- statements ------------------------------------------------------------------------------------------------------
+    def arg(self, ty=None):
+        r = self.rng.random()
+        if ty is not None and r < 0.6:
+            for nm, t, _ in ARGVARS:
+                if t == ty:
+                    self.last_argtypes.append(t)
+                    return nm
+        if r < 0.85:
+            nm, t, _ = self.rng.choice(ARGVARS)
+            self.last_argtypes.append(t)
+            return nm
+        lit = self.rng.choice(LITERALS)
+        self.last_argtypes.append(LIT_TYPES[lit])
+        return lit
+
+    def args_for(self, sigs):
+        self.last_argtypes = []
+        if not sigs or self.rng.random() < 0.1:
+            return self.arg()
+        sig = self.rng.choice(sigs)
+        return ", ".join(self.arg(t) for t in sig)
+
+    def vis_vars(self, ctx):
+        v = set(self.gvars)
+        for info in ctx.get("ns", []):
+            v |= set(info["vars"])
+        if ctx.get("struct"):
+            v |= set(ctx["struct"]["vars"]) | set(ctx["struct"]["svars"])
+        for sc in ctx["local"]:
+            v |= set(x for x in sc if x)
+        return sorted(v)
+
+    def vis_funcs(self, ctx):
+        """name -> signatures of the innermost scope declaring it"""
+        f = dict(self.gfuncs)
+        for info in ctx.get("ns", []):
+            f.update(info["funcs"])
+        if ctx.get("struct"):
+            f.update(ctx["struct"]["funcs"])
+        return f
+
+    def emit_use(self, ind, prefix, name, suffix, kind, wrap=True):
+        """statement using `prefix name suffix` (e.g. prefix 's0.', suffix '(a1)'); probe first"""
+        occ = self.nocc
+        self.nocc += 1
+        self.kinds[occ] = kind
+        usings = {}
+        for u in (self.cur_ctx or {}).get("usings", []):
+            usings.update(u)
+        self.oinfo[occ] = dict(kind=kind, name=name, prefix=prefix, usings=usings, argtypes=list(self.last_argtypes))
+        expr = prefix + name + suffix
+        self.toks.append(("p", expr, occ, ind))
+        self.t(ind + ("sink(&" if wrap else "") + prefix)
+        self.toks.append(("u", name, occ))
+        self.t(suffix + (");\n" if wrap else ";\n"))
+
+    def objects(self, ind):
+        for (sn, info) in self.structs:
+            i = sn[1:]
+            self.t("%s%s s%s; %s *p%s = &s%s;\n" % (ind, sn, i, sn, i, i))
+
+    def argvars(self, ind):
+        self.t(ind + " ".join("%s %s = %s;" % (ty, nm, init) for nm, ty, init in ARGVARS) + "\n")
+
+    def stmts(self, ind, ctx, depth, n=None):
+        rng = self.rng
+        n = rng.choice([2, 3, 4, 5]) if n is None else n
+        for _ in range(n):
+            self.stmt(ind, ctx, depth)
+
+    def pick_ns(self):
+        return self.rng.choice(self.nspaces) if self.nspaces else None
+
+    def stmt(self, ind, ctx, depth):
+        rng = self.rng
+        self.cur_ctx = ctx
+        self.last_argtypes = []
+        ctx.setdefault("usings", [{}])
+        r = rng.random()
+        vn = "v%d" % rng.randrange(4)
+        fn = "f%d" % rng.randrange(3)
+        vv = self.vis_vars(ctx)
+        vf = self.vis_funcs(ctx)
+        if vv and rng.random() < 0.9:
+            vn = rng.choice(vv)
+        if vf and rng.random() < 0.9:
+            fn = rng.choice(sorted(vf))
+        if r < 0.16:
+            self.emit_use(ind, "", vn, "", "var")
+        elif r < 0.22:
+            self.emit_use(ind, "::", rng.choice(self.gvars) if self.gvars and rng.random() < 0.9 else vn, "", "var-global-qualified")
+        elif r < 0.30 and self.nspaces:
+            path, info = self.pick_ns()
+            nm = rng.choice(info["vars"]) if info["vars"] and rng.random() < 0.8 else vn
+            self.emit_use(ind, path + "::", nm, "", "var-ns-qualified")
+        elif r < 0.40 and self.structs:
+            sn, info = rng.choice(self.structs)
+            i = sn[1:]
+            nm = rng.choice(info["vars"]) if info["vars"] and rng.random() < 0.8 else vn
+            self.emit_use(ind, rng.choice(["s%s." % i, "p%s->" % i]), nm, "", "member")
+        elif r < 0.44 and self.structs:
+            sn, info = rng.choice(self.structs)
+            nm = rng.choice(info["svars"]) if info["svars"] and rng.random() < 0.8 else vn
+            self.emit_use(ind, sn + "::", nm, "", "static-member")
+        elif r < 0.58:
+            self.emit_use(ind, "", fn, "(%s)" % self.args_for(vf.get(fn)), "call", wrap=False)
+        elif r < 0.63:
+            gf = rng.choice(sorted(self.gfuncs)) if self.gfuncs and rng.random() < 0.9 else fn
+            self.emit_use(ind, "::", gf, "(%s)" % self.args_for(self.gfuncs.get(gf)), "call-global-qualified", wrap=False)
+        elif r < 0.70 and self.nspaces:
+            path, info = self.pick_ns()
+            nm = rng.choice(list(info["funcs"])) if info["funcs"] and rng.random() < 0.8 else fn
+            self.emit_use(ind, path + "::", nm, "(%s)" % self.args_for(info["funcs"].get(nm)), "call-ns-qualified", wrap=False)
+        elif r < 0.78 and self.structs:
+            sn, info = rng.choice(self.structs)
+            i = sn[1:]
+            nm = rng.choice(list(info["funcs"])) if info["funcs"] and rng.random() < 0.8 else fn
+            self.emit_use(ind, rng.choice(["s%s." % i, "p%s->" % i]), nm, "(%s)" % self.args_for(info["funcs"].get(nm)), "call-member", wrap=False)
+        elif r < 0.85:
+            if vn not in ctx["local"][-1]:
+                ctx["local"][-1].add(vn)
+                self.decl_var(vn, ind=ind, kind="local")
+            else:
+                self.emit_use(ind, "", vn, "", "var")
+        elif r < 0.90 and depth < 2:
+            self.t(ind + "{\n")
+            ctx["local"].append(set())
+            ctx["usings"].append({})
+            self.stmts(ind + "  ", ctx, depth + 1, rng.choice([1, 2, 3]))
+            ctx["local"].pop()
+            ctx["usings"].pop()
+            self.t(ind + "}\n")
+        elif r < 0.94 and depth < 2:
+            k = self.newk()
+            self.dinfo[k] = ("lambda-param", "")
+            self.t("%sauto l%d = [&](R%d" % (ind, self.nlam, k))
+            self.nlam += 1
+            self.toks.append(("d", vn, k))
+            self.t(") {\n")
+            ctx["local"].append({vn})
+            ctx["usings"].append({})
+            self.stmts(ind + "  ", ctx, depth + 1, rng.choice([1, 2, 3]))
+            ctx["local"].pop()
+            ctx["usings"].pop()
+            self.t(ind + "};\n")
+        elif r < 0.97 and self.nspaces and not ctx.get("used_ns"):
+            path, info = self.pick_ns()
+            ctx["used_ns"] = True
+            self.t("%susing namespace %s;\n" % (ind, path))
+        elif self.nspaces:
+            path, info = self.pick_ns()
+            if info["vars"]:
+                nm = rng.choice(info["vars"])
+                if nm not in ctx["local"][-1]:
+                    ctx["local"][-1].add(nm)
+                    ctx["usings"][-1][nm] = path
+                    self.t("%susing %s::%s;\n" % (ind, path, nm))
+                    return
+            self.emit_use(ind, "", vn, "", "var")
+        else:
+            self.emit_use(ind, "", vn, "", "var")
+
+    # -- declarations ----------------------------------------------------------------------------------------------------
+    def overloads(self, ind, funcs, bodyctx, name=None, method=False, scope=""):
+        """an overload set of a fresh name in the current scope"""
+        rng = self.rng
+        cand = [("f%d" % j) for j in range(3) if ("f%d" % j) not in funcs]
+        if not cand:
+            return
+        name = rng.choice(cand)
+        n = rng.choice([1, 2, 2, 3, 3, 4])
+        sigs = []
+        for _ in range(n):
+            sig = tuple(rng.choice(PTYPES) for _ in range(rng.choice([1, 1, 1, 2])))
+            if sig not in sigs:
+                sigs.append(sig)
+        if method or self.order:
+            funcs[name] = sigs          # in a class every member function is visible in every body
+        for sig in sigs:
+            k = self.newk()
+            self.dinfo[k] = ("method" if method else "function", scope, sig)
+            self.t("%sR%d" % (ind, k))
+            self.toks.append(("d", name, k))
+            pv = None
+            self.t("(")
+            for j, ty in enumerate(sig):
+                if j:
+                    self.t(", ")
+                self.t("%s b%d" % (ty, j))
+            if rng.random() < 0.25:
+                # an extra defaulted tracked parameter that may shadow an outer / member variable
+                pk = self.newk()
+                self.dinfo[pk] = ("param", "")
+                pv = "v%d" % rng.randrange(4)
+                self.t(", R%d" % pk)
+                self.toks.append(("d", pv, pk))
+                self.t(" = R%d()" % pk)
+            self.t(") {\n")
+            if rng.random() < 0.6:
+                self.argvars(ind + "  ")
+                self.objects(ind + "  ")
+                ctx = dict(bodyctx, local=[{pv} if pv else set()])
+                self.stmts(ind + "  ", ctx, 1, rng.choice([1, 2, 3]))
+            self.t("%s  return R%d();\n%s}\n" % (ind, k, ind))
+        funcs[name] = sigs
+
+    def namespace(self, ind, path, depth, nsctx=()):
+        rng = self.rng
+        nsctx = list(nsctx)
+        name = "N%d" % self.nns
+        self.nns += 1
+        q = (path + "::" if path else "") + name
+        info = {"vars": [], "funcs": {}}
+        self.t("%snamespace %s {\n" % (ind, name))
+        reg = False
+        for _ in range(rng.choice([2, 3, 4])):
+            r = rng.random()
+            if r < 0.4:
+                vn = "v%d" % rng.randrange(4)
+                if vn not in info["vars"]:
+                    info["vars"].append(vn)
+                    self.decl_var(vn, ind=ind + "  ", kind="ns-var", scope=q)
+            elif r < 0.8:
+                if not reg:
+                    self.nspaces.append((q, info)); reg = True
+                self.overloads(ind + "  ", info["funcs"], {"ns": nsctx + [info]}, scope=q)
+            elif depth < 1:
+                if not reg:
+                    self.nspaces.append((q, info)); reg = True
+                self.namespace(ind + "  ", q, depth + 1, nsctx + [info])
+        if not reg:
+            self.nspaces.append((q, info))
+        self.t("%s}\n" % ind)
+
+    def struct(self, ind):
+        rng = self.rng
+        name = "S%d" % self.nst
+        self.nst += 1
+        info = {"vars": [], "svars": [], "funcs": {}}
+        self.t("%sstruct %s {\n" % (ind, name))
+        for _ in range(rng.choice([2, 3, 4, 5])):
+            r = rng.random()
+            vn = "v%d" % rng.randrange(4)
+            if r < 0.45:
+                if vn not in info["vars"] and vn not in info["svars"]:
+                    info["vars"].append(vn)
+                    self.decl_var(vn, ind=ind + "  ", kind="member", scope=name)
+            elif r < 0.6:
+                if vn not in info["vars"] and vn not in info["svars"]:
+                    info["svars"].append(vn)
+                    self.decl_var(vn, static=True, ind=ind + "  ", kind="static-member", scope=name)
+            else:
+                self.overloads(ind + "  ", info["funcs"], {"struct": info}, method=True, scope=name)
+        self.t("%s};\n" % ind)
+        self.structs.append((name, info))
+
+    def prog(self):
+        rng = self.rng
+        for _ in range(int(rng.choice([3, 4, 5, 6]) * self.size)):
+            r = rng.random()
+            if r < 0.25:
+                vn = "v%d" % rng.randrange(4)
+                if vn not in self.gvars:
+                    self.gvars.append(vn)
+                    self.decl_var(vn, kind="global-var")
+            elif r < 0.45:
+                self.namespace("", "", 0)
+            elif r < 0.65:
+                self.struct("")
+            else:
+                self.overloads("", self.gfuncs, {})
+        for g in range(rng.choice([1, 2])):
+            self.t("int g%d() {\n" % g)
+            self.argvars("  ")
+            self.objects("  ")
+            self.stmts("  ", {"local": [set()]}, 0, rng.choice([4, 6, 8]))
+            self.t("  return 0;\n}\n")
+        return self
+
+    # -- (de)serialisation of a finished program (corpus witnesses, replays) ---------------------------------------------------
+    def to_json(self):
+        return dict(toks=[list(t) for t in self.toks], k=self.k, nocc=self.nocc,
+                    dinfo=dict((str(k), list(v)) for k, v in self.dinfo.items()),
+                    oinfo=dict((str(o), v) for o, v in self.oinfo.items()))
+
+    @staticmethod
+    def from_json(j):
+        g = LinkGen(None)
+        g.toks = [tuple(t) for t in j["toks"]]
+        g.k = j["k"]
+        g.nocc = j["nocc"]
+        g.dinfo = dict((int(k), tuple(tuple(x) if isinstance(x, list) else x for x in v)) for k, v in j["dinfo"].items())
+        g.oinfo = dict((int(o), v) for o, v in j["oinfo"].items())
+        g.kinds = dict((o, v["kind"]) for o, v in g.oinfo.items())
+        return g
+
+    # -- rendering -------------------------------------------------------------------------------------------------------
+    def header(self):
+        return ("template<int N> struct Probe;\n" + "".join("struct R%d { char c[%d]; };\n" % (k, k) for k in range(1, self.k + 1)) +
+                "void sink(const void *);\n")
+
+    def render(self, probes):
+        """text; for probes=False also {occ: line}, {decl line: k}"""
+        out = [self.header()] if probes else [self.header().replace("template<int N> struct Probe;\n", "")]
+        line = 1 + out[0].count("\n")
+        occ_line, decl_line = {}, {}
+        for tk in self.toks:
+            if tk[0] == "t":
+                out.append(tk[1]); line += tk[1].count("\n")
+            elif tk[0] == "p":
+                if probes:
+                    s = "%sProbe<sizeof(%s)> q%d;\n" % (tk[3], tk[1], tk[2])
+                    out.append(s); line += 1
+            else:
+                out.append("\n"); line += 1
+                if tk[0] == "d":
+                    decl_line[line] = tk[2]
+                else:
+                    occ_line[tk[2]] = line
+                out.append(tk[1] + "\n"); line += 1
+        return "".join(out), occ_line, decl_line
+
+
+# -- comparison and classification -----------------------------------------------------------------------------------------
+
+PROMO = {("char", "int"), ("short", "int"), ("bool", "int"), ("float", "double")}
+ARITH = {"int", "long", "double", "char", "bool", "unsigned", "float", "short"}
+
+
+def conv_rank(arg, par):
+    """rank of the implicit conversion of one argument: 0 exact, 1 promotion, 2 conversion, 9 none (only the built-in types
+    the generator uses)"""
+    if arg == par:
+        return 0
+    if arg == "zero":
+        return 0 if par == "int" else 2
+    if (arg, par) in PROMO:
+        return 1
+    if arg in ARITH and par in ARITH:
+        return 2
+    if arg == "const char *" and par == "bool":
+        return 2
+    return 9
+
+
+def scope_prefix(outer, inner):
+    """is scope path `outer` a proper enclosing scope of `inner` ('' = global)"""
+    if outer == inner:
+        return False
+    return outer == "" or inner.startswith(outer + "::")
+
+
+def classify_link(g, occ, use_line, linked_k, linked_line, expected_k):
+    """specific classes of `token linked to another declaration than the compiler selects`"""
+    oi = g.oinfo[occ]
+    dl = g.dinfo.get(linked_k)
+    de = g.dinfo.get(expected_k)
+    if dl is None or de is None:
+        return None
+    # K1: `using NS::x;` earlier in the function: every later token spelled x is treated as NS::x, also `s.x`, `::x` and
+    # uses bound to an inner declaration of x
+    if oi["name"] in oi["usings"] and dl[0] == "ns-var" and dl[1] == oi["usings"][oi["name"]]:
+        return "using-declaration-substitutes-other-name"
+    if dl[0] in ("function", "method") and de[0] in ("function", "method"):
+        # K2: a non-member function declared after the call cannot be what the compiler selected
+        if dl[0] == "function" and linked_line > use_line:
+            return "call-linked-to-later-declaration"
+        # K3: the compiler's function lives in a scope nested inside the scope of the linked one and hides it
+        if scope_prefix(dl[1], de[1]):
+            return "call-linked-to-hidden-outer-function"
+        # K4: same overload set; the linked overload is dominated (never a better, somewhere a worse conversion rank)
+        if dl[1] == de[1] and len(dl[2]) == len(de[2]) == len(oi["argtypes"]):
+            rl = [conv_rank(a, p) for a, p in zip(oi["argtypes"], dl[2])]
+            re_ = [conv_rank(a, p) for a, p in zip(oi["argtypes"], de[2])]
+            if 9 in rl and 9 not in re_:
+                return "call-linked-to-nonviable-overload"     # K5: some argument cannot be converted to the parameter type
+            if all(x >= y for x, y in zip(rl, re_)) and any(x > y for x, y in zip(rl, re_)):
+                return "call-linked-to-dominated-overload"
+    return None
+
+
+def gxx_probe_batch(ctx, gens, tag):
+    """one g++ -fsyntax-only run over a translation unit holding all programs (identifiers prefixed per program).
+    Returns per program {occ: k}: only probes on whose line g++ reported nothing else (an `invalid conversion` that g++
+    merely diagnoses, an ambiguity, an undeclared name make the probe unusable)."""
+    text, starts = "", []
+    for i, g in enumerate(gens):
+        t = g.render(True)[0]
+        t = re.sub(r"\b([vfNSRgqaspbl]\d+)\b", lambda m: "X%d_%s" % (i, m.group(1)), t)
+        t = t.replace("template<int N> struct Probe;\n", "" if i else "template<int N> struct Probe;\n")
+        t = t.replace("void sink(const void *);\n", "" if i else "void sink(const void *);\n")
+        starts.append(text.count("\n") + 1)
+        text += t
+    path = os.path.join(ctx.tmp, "probe_%s.cpp" % tag)
+    open(path, "w").write(text)
+    r = subprocess.run(["g++", "-std=c++17", "-fsyntax-only", "-fmax-errors=0", "-pedantic-errors", path],
+                       stdout=subprocess.PIPE, stderr=subprocess.PIPE, text=True, timeout=600)
+    try:
+        os.remove(path)
+    except OSError:
+        pass
+    probes, bad = [], set()
+    for m in re.finditer(r"^[^\n:]+:(\d+):\d+: error: (.*)$", r.stderr, re.M):
+        line, msg = int(m.group(1)), m.group(2)
+        mm = re.match(r"aggregate .Probe<(\d+)> X(\d+)_q(\d+). has incomplete type", msg)
+        if mm:
+            probes.append((int(mm.group(2)), int(mm.group(3)), int(mm.group(1)), line))
+        else:
+            bad.add(line)
+    out = [dict() for _ in gens]
+    for i, q, k, line in probes:
+        if line not in bad:
+            out[i][q] = k
+    return out
+
+
+def link_compare(g, probes, harness_line):
+    """per occurrence: ('ok'|'unlinked'|'none'|'wrong', detail)"""
+    text, occ, decl = g.render(False)
+    if not harness_line.startswith("ok"):
+        return None, text
+    links = {}
+    for e in harness_line.split()[1:]:
+        l, v = e.split(":")
+        links.setdefault(int(l), set()).add(v)
+    res = []
+    for o in range(g.nocc):
+        if o not in probes:
+            res.append(("none", None))
+            continue
+        lk = links.get(occ[o], {"?"})
+        v = sorted(lk)[0]
+        if len(lk) != 1 or v in ("-", "?"):
+            res.append(("unlinked", None))
+            continue
+        ll = int(v[1:])
+        kc = decl.get(ll)
+        if kc == probes[o]:
+            res.append(("ok", None))
+        else:
+            k2line = dict((k, l) for l, k in decl.items())
+            res.append(("wrong", dict(occ=o, use_line=occ[o], linked=v, linked_decl=g.dinfo.get(kc), compiler_decl=g.dinfo.get(probes[o]),
+                                      compiler_line=k2line.get(probes[o]), info=g.oinfo[o],
+                                      key=classify_link(g, o, occ[o], kc, ll, probes[o]))))
+    return res, text
+
+
+def link_tie(ctx, res, exe, n, batch=20):
+    """sampled tie for the part of the property outside the Lean model: calls / overloads, members, namespaces, static
+    members, lambdas.  Oracle = g++ (sizeof probes), implementation = Token::variable / Token::function after simplifyTokens1."""
+    rng = ctx.rng
+    gens, origin = [], []
+    p = os.path.join(core.VERIF, "corpus", "C08", "link_witnesses.json")
+    for w in (json.load(open(p)) if os.path.exists(p) else []):
+        gens.append(LinkGen.from_json(w["prog"]))
+        origin.append("corpus:" + w["key"])
+    for _ in range(n):
+        gens.append(LinkGen(rng, size=rng.choice([0.6, 1.0, 1.0]), order=rng.random() < 0.2).prog())
+        origin.append("generated")
+    jobs = [(b, gens[b:b + batch]) for b in range(0, len(gens), batch)]
+    with concurrent.futures.ThreadPoolExecutor(max_workers=2) as ex:
+        parts = list(ex.map(lambda j: gxx_probe_batch(ctx, j[1], "b%d" % j[0]), jobs))
+    probes = [x for part in parts for x in part]
+    rc, out, err = core.run_lines(exe, [], ["link " + core.hx(g.render(False)[0]) for g in gens], timeout=900)
+    if len(out) != len(gens):
+        raise core.CheckBroken("C08 harness (link) produced %d lines for %d programs: %s" % (len(out), len(gens), err[-300:]))
+    nprobe = nvalid = 0
+    viol = []
+    for k, (g, pr, o) in enumerate(zip(gens, probes, out)):
+        cmp_, text = link_compare(g, pr, o)
+        if cmp_ is None:
+            res.count("link:tokenizer-rejects")
+            continue
+        wrong = [d for c, d in cmp_ if c == "wrong"]
+        nprobe += g.nocc
+        nvalid += sum(1 for c, d in cmp_ if c != "none")
+        for o_, (c, d) in enumerate(cmp_):
+            res.count("link:%s:%s" % (c, g.kinds[o_]) if c in ("ok", "wrong") else "link:" + c)
+        res.case("link|" + text, bool(wrong) or sum(1 for c, d in cmp_ if c == "ok") >= 3,
+                 dict(tie="link-probe", program=inline_vf(text)[-1500:], result=[c for c, d in cmp_]) if k % max(1, len(gens) // 3) == 0 else None)
+        for d in wrong:
+            viol.append(dict(gen=g, text=text, d=d, origin=origin[k]))
+    res.extra["link_programs"] = len(gens)
+    res.extra["link_probes"] = nprobe
+    res.extra["link_probes_answered_by_gxx"] = nvalid
+    res.oblig("link-probe:oracle-coverage", nvalid * 3 >= nprobe and nvalid >= 5 * len(gens) // 2, "machinery",
+              "g++ answered only %d of %d probes" % (nvalid, nprobe))
+    nunl = res.dist.get("link:unlinked", 0)
+    res.oblig("link-probe:unlinked-ceiling", nunl * 20 <= nvalid, "correspondence",
+              "" if nunl * 20 <= nvalid else "%d of %d probed tokens are not linked at all (ceiling 5 %%)" % (nunl, nvalid))
+    known = set(e["key"] for e in core.load_known() if e.get("property") == ID and e.get("kind") == "finding")
+    viol.sort(key=lambda v: (v["d"]["key"] in known, len(v["text"])))
+    seen = {}
+    for v in viol:
+        key = v["d"]["key"]
+        seen[key] = seen.get(key, 0) + 1
+        if seen[key] > (4 if key is None else 1):
+            continue          # one replay per known class (the smallest program), a few for unknown ones
+        d = v["d"]
+        what = ("a token is linked to another declaration than the compiler selects%s: line %d linked to %s %s, g++ selects %s (line %s); use %s\n%s" %
+                ((" [class %s]" % key) if key else "", d["use_line"], d["linked"], d["linked_decl"], d["compiler_decl"], d["compiler_line"], d["info"], inline_vf(v["text"])))
+        res.violation(what, dict(link=v["gen"].to_json(), detail=d, key=key, text=v["text"], replay_cmd="./check.py C08 --replay <this file>"), concrete=True, key=key)
+    for key, cnt in seen.items():
+        res.count("link:wrong-class:%s" % key, cnt)
+    return viol
+
+
+def inline_vf(text):
+    return re.sub(r"\n([vf]\d+)\n", r" \1 ", text)
+
+
+def dump_tie(ctx, res, cases, impl, n):
+    """L5 of the audit: the ids `cppcheck --dump` writes (the property's observation point) equal the ids read in-process
+    after simplifyTokens1, for a batch of programs"""
+    binp = ctx.cppcheck
+    bad, done = [], 0
+    for k, (c, im) in enumerate(zip(cases, impl)):
+        if done >= n:
+            break
+        if im[0] != "ok":
+            continue
+        done += 1
+        text, occ = print_prog(c["prog"], c["cpp"])
+        path = os.path.join(ctx.tmp, "d%d.%s" % (k, "cpp" if c["cpp"] else "c"))
+        open(path, "w").write(text)
+        rc, out, err = core.sh([binp, "--dump", "--quiet", path], timeout=120)
+        by_line, conflict = {}, False
+        try:
+            dump = open(path + ".dump", encoding="utf-8", errors="replace").read()
+        except OSError:
+            bad.append((k, "no dump file (rc=%s %s)" % (rc, err[:100])))
+            continue
+        first = dump.find("<dump cfg=")
+        second = dump.find("<dump cfg=", first + 1)
+        body = dump[first:second if second > 0 else len(dump)]
+        for m in re.finditer(r"<token [^>]*>", body):
+            t = m.group(0)
+            ms = re.search(r' str="(v\d+)"', t)
+            if not ms:
+                continue
+            l = int(re.search(r' linenr="(\d+)"', t).group(1))
+            mv = re.search(r' varId="(\d+)"', t)
+            v = int(mv.group(1)) if mv else 0
+            if l in by_line and by_line[l] != v:
+                conflict = True
+            by_line.setdefault(l, v)
+        ids = [by_line.get(oc[0]) for oc in occ]
+        if conflict or ids != im[2]:
+            bad.append((k, "dump=%s in-process=%s" % (ids, im[2])))
+        for f in (path, path + ".dump"):
+            try:
+                os.remove(f)
+            except OSError:
+                pass
+    res.extra["dump_programs"] = done
+    res.oblig("correspondence:dump-varids-equal-in-process", not bad and done > 0, "correspondence",
+              "" if not bad else "%d of %d programs; first: %s %s" % (len(bad), done, describe(cases[bad[0][0]]), bad[0][1]))
+
+
 def harness_exe(ctx):
     """the harness linked against the working-tree objects; VERIF_C08_HARNESS substitutes a harness linked against a mutated
     tokenize.o (used only for the mutation experiments described in docs/C08.md)"""
@@ -1177,6 +1804,9 @@ def run(ctx, res):
               "" if wit and not nodisc else "corpus witnesses of F4 missing or not discriminating: %s" % nodisc)
     viol, mism = compare(ctx, res, "tokenizer-varids", cases, impl, model)
     clang_oracle(ctx, res, cases, model, 4000 if thorough else 300)
+    link_tie(ctx, res, exe, 1500 if thorough else 160)
+    if thorough and not os.environ.get("VERIF_C08_HARNESS"):
+        dump_tie(ctx, res, cases, impl, 250)
     # violation search: the correspondence broke but no explored case violates the property itself -> widen and shrink
     known = set(e["key"] for e in core.load_known() if e.get("property") == ID and e.get("kind") == "finding")
     fresh = [v for v in viol if v["key"] not in known]
@@ -1224,6 +1854,17 @@ def search(ctx, res, drv, exe):
 def replay(ctx, res, rp):
     drv = ctx.driver("drv_c08")
     exe = harness_exe(ctx)
+    if "link" in rp:
+        g = LinkGen.from_json(rp["link"])
+        pr = gxx_probe_batch(ctx, [g], "replay")[0]
+        rc, out, err = core.run_lines(exe, [], ["link " + core.hx(g.render(False)[0])])
+        cmp_, text = link_compare(g, pr, out[0])
+        print(inline_vf(text))
+        wrong = [d for c, d in (cmp_ or []) if c == "wrong"]
+        for d in wrong:
+            print("VIOLATION property=C08 replay=(replayed) key=%s line %d linked to %s %s, g++ selects %s" % (d["key"], d["use_line"], d["linked"], d["linked_decl"], d["compiler_decl"]))
+        print("replay: %d wrongly linked token(s)" % len(wrong))
+        return 1 if wrong else 0
     cases = [dict(cpp=rp["cpp"], prog=rp["prog"])]
     impl = impl_run(exe, cases)
     model = model_run(drv, cases)
